@@ -386,7 +386,7 @@ func main() {
 		},
 		Deadline: func(tier string) time.Duration {
 			if tier == "thorough" {
-				return 40 * time.Minute
+				return 25 * time.Minute
 			}
 			return 5 * time.Minute
 		},
